@@ -147,12 +147,13 @@ func delays(q, t int) func(*Config, bool) {
 func registerMore2() {
 	addProp(&PropSpec{
 		ID: "C15",
-		Explanation: "PARTIAL. Decided: (1) Request.UnmarshalParams on symbolic params objects (optional x token, y string, optional unknown field; or empty) into a RawMessage (copy, never an error, untouched when empty), an ordinary struct (unknown fields ignored, values as encoding/json decodes them), a type with DisallowUnknownFields and the StrictFields wrapper (unknown field -> InvalidParams), and params of the wrong JSON kind (-> InvalidParams); " +
-			"(2) arrayStub.translate, the array-to-field mapping for struct parameters: arrays of 0..3 symbolic elements against two names (wrong length -> InvalidParams, element i becomes field i, non-arrays unchanged). " +
-			"NOT decided (not applicable to this technique here): everything behind reflect - Check's signature classification (reflect.Type), FuncInfo.Wrap's reflect.New / Value.Call / Interface path, i.e. 'calls the function exactly once with the decoded argument' and 'never panics on any params'. reflect has no Go source semantics the engine can execute and a model of it would verify the model, not the code.",
-		Bounds:      []string{"params: object with <= 3 members or a 1-element array", "array of 0..3 elements, 2 positional names"},
-		Outside:     []string{"handler.Check, FuncInfo.Wrap, handler.New (reflect)", "decoding into arbitrary user types (encoding/json stub covers RawMessage/string/int/struct-of-those)"},
-		Assumptions: append([]string{jsonAssumption, "json.Decoder with DisallowUnknownFields: fails iff an object key matches no field"}, commonAssumptions...),
+		Explanation: "handler.Check, FuncInfo.Wrap and the wrapper they build are executed from source; package reflect is an engine intrinsic over go/types (types are go/types types, a reflect.Value wraps an interpreter value, reflect.New allocates a real cell, Value.Call calls the real interpreted function - see gosym/reflect.go). " +
+			"(1) Check on 9 functions covering the documented signature schemes and 8 values that must be rejected (nil, non-function, no context, wrong first parameter, too many parameters, second result not error, variadic, no result): accepted exactly the documented schemes, FuncInfo fields describe the signature. " +
+			"(2) Wrap for each scheme x SetStrict x AllowArray on symbolic params (absent; object with a token and a symbolic string; with an unknown field; arrays of the right length, too short, too long; wrong field type): the function is called exactly once with the argument encoding/json decodes (after the array-to-field mapping), strict types and SetStrict reject unknown fields, or InvalidParams without a call; result and error pass through unchanged; no panic. " +
+			"(3) the positional field-name rules on a struct with a tagged embedded field, an unexported field and a json:\"-\" field. (4) Request.UnmarshalParams and arrayStub.translate directly.",
+		Bounds:      []string{"9 accepted + 8 rejected function shapes (programs are enumerated, params are symbolic)", "struct parameters with a RawMessage and a string field; params arrays of 1..3 elements", "string fields <= 1 symbolic byte"},
+		Outside:     []string{"parameter types beyond structs of RawMessage/string/int fields and *jrpc2.Request (scalars, slices, maps, embedded pointers)", "the real package reflect: the model in gosym/reflect.go stands in for it (Kind, NumIn/In/NumOut/Out, IsVariadic, Elem, Implements, NumField/Field, New, ValueOf, Interface, Elem, Call, StructOf, FuncOf, MakeFunc, PointerTo)"},
+		Assumptions: append([]string{jsonAssumption, "reflect model over go/types (gosym/reflect.go); validated by the native replay of counterexamples (the C15 finding and the seeded change C15_a reproduce natively with the real reflect)", "json.Decoder with DisallowUnknownFields: fails iff an object key matches no field"}, commonAssumptions...),
 		Harnesses: []HarnessSpec{
 			{Dir: "jrpc2", Name: "Harness_C15_unmarshal", Reach: []string{"raw", "struct", "strict-ok", "strict-rejected", "wrapper-ok", "wrapper-rejected"}},
 			{Dir: "handler", Name: "Harness_C15_params", Reach: []string{"wrong-arity", "translated", "passthrough"}},
@@ -163,13 +164,14 @@ func registerMore2() {
 	})
 	addProp(&PropSpec{
 		ID: "C16",
-		Explanation: "PARTIAL. Decided at JSON-token level: Args.UnmarshalJSON (0..3 slots that are nil, *int, *string or *json.RawMessage against arrays of 0..3 elements of symbolic kind: exact length, no target touched on mismatch, element i into slot i, nil slots skipped, null leaves targets unchanged, failure only when an element does not fit), Args.MarshalJSON (element-wise, [] when empty), " +
-			"Obj.UnmarshalJSON (targets a/b present or not against objects with any subset of a/b/c, every map order: only keys present in both are decoded, no other target or the map itself is touched; non-objects refused), and arrayStub.translate (shared with C15). " +
-			"NOT decided: Positional/NewPos end to end - reflect.StructOf, reflect.MakeFunc and struct decoding into synthesized types have no executable source semantics here.",
-		Bounds:      []string{"<= 3 slots / elements", "Obj with <= 2 targets and <= 3 members"},
-		Outside:     []string{"handler.Positional, NewPos, makeArgType, makeCaller (reflect)"},
-		Assumptions: append([]string{jsonAssumption, "a JSON number decodes into an int target or fails (both allowed when the number's text is opaque)"}, commonAssumptions...),
+		Explanation: "(1) Positional(func(ctx, json.RawMessage, string) (string, error), \"first\", \"second\") is executed from source over the reflect model (StructOf, FuncOf, MakeFunc) and its wrapper is called with symbolic params: an array of exactly two elements (also with null), too short, too long, empty, an object with both names, with a subset, with an unknown name, a wrong element type - the function is called exactly once with element i / the named member in parameter i (missing names and nulls leave zero values), otherwise InvalidParams without a call. Name/arity mismatches and variadic functions are refused; zero positional parameters fall back to Check. " +
+			"(2) Args.UnmarshalJSON (0..3 slots that are nil, *int, *string or *json.RawMessage against arrays of 0..3 elements of symbolic kind), Args.MarshalJSON, Obj.UnmarshalJSON (every map order) and arrayStub.translate at JSON-token level.",
+		Bounds:      []string{"arity 2 for Positional (arities 0 and mismatches for the refusal cases)", "<= 3 slots / elements for Args", "Obj with <= 2 targets and <= 3 members"},
+		Outside:     []string{"arities 3..6 and argument kinds other than RawMessage/string/int", "the real package reflect (modelled, see C15)"},
+		Assumptions: append([]string{jsonAssumption, "reflect model over go/types (gosym/reflect.go)", "a JSON number decodes into an int target or fails (both allowed when the number's text is opaque)"}, commonAssumptions...),
 		Harnesses: []HarnessSpec{
+			{Dir: "handler", Name: "Harness_C16_positional", Reach: []string{"called", "rejected"}},
+			{Dir: "handler", Name: "Harness_C16_positional_arity", Reach: []string{"arity"}},
 			{Dir: "handler", Name: "Harness_C16_args", Reach: []string{"not-array", "length-mismatch", "element-error", "decoded"}},
 			{Dir: "handler", Name: "Harness_C16_args_marshal", Reach: []string{"marshalled"}},
 			{Dir: "handler", Name: "Harness_C16_obj", Reach: []string{"decoded", "obj-done"}},
